@@ -111,6 +111,44 @@ def merge_states(job_states, scheds, states):
             st[2] += base
 
 
+def eager_subgraph(nodes, edges, silent_enabled, silent_labels):
+    """The interleavings a free-running goroutine can realise: in a state where one of its channel receives (a `silent`
+    action) is enabled, nothing else happens first. Sub-graph of the full state graph TLC has checked."""
+    cache = {}
+
+    def sil(nid):
+        if nid not in cache:
+            cache[nid] = silent_enabled(nodes[nid])
+        return cache[nid]
+    return [(s, d, l) for (s, d, l) in edges if re.match(r'\w+', l).group(0) in silent_labels or not sil(s)]
+
+
+def walks_from_graph(nodes_txt, edges, inits, rng, num, depth):
+    """random walks over the state graph TLC dumped = behaviours of the specification, as [(label, state)]"""
+    from collections import defaultdict
+    out = defaultdict(list)
+    for (s, d, l) in edges:
+        if s != d:
+            out[s].append((d, l))
+    parsed = {}
+
+    def st(nid):
+        if nid not in parsed:
+            parsed[nid] = tlaval.parse_state(nodes_txt[nid])
+        return parsed[nid]
+    behs = []
+    for _ in range(num):
+        cur = inits[0]
+        beh = [('Init', st(cur))]
+        for _ in range(depth):
+            if not out[cur]:
+                break
+            cur, lab = rng.choice(out[cur])
+            beh.append((lab, st(cur)))
+        behs.append(beh)
+    return behs
+
+
 def pipe_from_behaviour(beh, rng, name):
     """A TLC simulation run of EventConn -> environment script for the real pipe: which process moves when, message sizes
     (scaled so that the real kernel produces partial writes), how much the callback consumes (as a share of what it is
@@ -139,10 +177,10 @@ def pipe_from_behaviour(beh, rng, name):
     return ops, cons, scale
 
 
-def build_pipe(ck, rng, tier, behs, ends):
+def build_pipe(ck, rng, tier, behs):
     scen = []
-    ends = sorted(ends)
-    for bi, beh in enumerate(behs):
+    for bi, (beh, ends) in enumerate(behs):
+        ends = sorted(ends)
         ops, cons, scale = pipe_from_behaviour(beh, rng, 'sim')
         out = []
         for op in ops:
@@ -277,38 +315,72 @@ def run(prop, tier, seed, replay=None):
         return do_replay(ck, replay)
 
     job = {'instr': True, 'states': [], 'window': [], 'pipe': [], 'e2e': [], 'burst': [], 'writers': [], 'wstates': [],
-           'probes': ['writev-empty-slice', 'data-then-close']}
+           'dispatch': [], 'dstates': [], 'probes': ['writev-empty-slice', 'data-then-close']}
 
     # ---- all TLC runs of the tier, side by side (each is small; the wall time is JVM start-up)
     quick = tier == 'quick'
     small = dict(N=5, ends=[2, 5], cap=2, smin=2, init=2) if quick else dict(N=6, ends=[1, 3, 6], cap=2, smin=2, init=2)
     small2 = dict(N=6, ends=[1, 4, 6], cap=3, smin=3, init=1, lean=True)
-    unitc = dict(N=10, ends=[10], cap=2, smin=2, init=1, T=2, S=8, maxread=2, consume='edges', lean=True)
+    # quick: everything is in the socket at once (the reader-side choices are all there, few writer interleavings)
+    unitc = dict(N=9, ends=[9], cap=9, smin=9, init=1, T=2, S=8, maxread=2, consume='edges', lean=True) if quick else \
+        dict(N=10, ends=[10], cap=2, smin=2, init=1, T=2, S=8, maxread=2, consume='edges', lean=True)
     logic = dict(N=7 if quick else 9, ends=[3, 7] if quick else [3, 9], cap=3, smin=2, init=1, T=3, S=4)
     simc = dict(N=9, ends=[2, 5, 9], cap=3, smin=2, init=2, greedy=True)
     wfull = dict(c1=2, c2=2, sub=2) if quick else dict(c1=3, c2=2, sub=3)
-    wrep = dict(c1=2, c2=1, sub=1) if quick else dict(c1=2, c2=2, sub=2)
+    wrep = dict(c1=2, c2=2, sub=2)
+    drep = dict(fills=2, maxin=2) if quick else dict(fills=3, maxin=3)     # dumped: verdict and replay instance in one
+    dfull = drep
     from concurrent.futures import ThreadPoolExecutor
     nw = 4
-    ex = ThreadPoolExecutor(max_workers=9)
+    os.environ.setdefault('JAVA_TOOL_OPTIONS', '-Xmx4g -XX:ParallelGCThreads=4')
+    ex = ThreadPoolExecutor(max_workers=12)
+    # (one JVM per dumped graph: the replay instances are the Eager sub-graphs, cut out in Python)
+    f_drep = ex.submit(tlc.dump_graph, 'EventConnDispatch', 'd.cfg', 900, 2, {'d.cfg': dcfg(**drep)})
     f_small = ex.submit(tlc.dump_graph, 'EventConn', 'mc.cfg', 900, nw, {'mc.cfg': cfg(**small)})
     f_small2 = ex.submit(tlc.dump_graph, 'EventConn', 'mc.cfg', 900, nw, {'mc.cfg': cfg(**small2)}) if not quick else None
     f_unit = ex.submit(tlc.dump_graph, 'EventConn', 'mc.cfg', 900, nw, {'mc.cfg': cfg(**unitc)})
-    f_logic = ex.submit(tlc.run, 'EventConn', 'mc.cfg', nw, 900, {'mc.cfg': cfg(**logic)})
-    f_wfull = ex.submit(tlc.run, 'EventConnWriters', 'w.cfg', nw, 900, {'w.cfg': WCFG % dict(eager='FALSE', **wfull)})
-    f_wrep = ex.submit(tlc.dump_graph, 'EventConnWriters', 'w.cfg', 900, nw, {'w.cfg': WCFG % dict(eager='TRUE', **wrep)})
-    f_sim = ex.submit(tlc.simulate, 'EventConn', 'mc.cfg', 30 if quick else 300, 80, ck.seed, 600,
-                      {'mc.cfg': cfg(**simc)})
+    f_logic = ex.submit(tlc.run, 'EventConn', 'mc.cfg', nw, 900, {'mc.cfg': cfg(**logic)}) if not quick else None
+    f_wfull = ex.submit(tlc.run, 'EventConnWriters', 'w.cfg', nw, 900, {'w.cfg': WCFG % dict(eager='FALSE', **wfull)}) \
+        if not quick else None
+    f_wrep = ex.submit(tlc.dump_graph, 'EventConnWriters', 'w.cfg', 900, nw, {'w.cfg': WCFG % dict(eager='FALSE', **wrep)})
+    f_sim = ex.submit(tlc.simulate, 'EventConn', 'mc.cfg', 300, 80, ck.seed, 600, {'mc.cfg': cfg(**simc)}) \
+        if not quick else None
+    f_dfull = None
+    # sensitivity instance (thorough): the switch-shaped dispatch must strand the writer in the model
+    f_dsens = ex.submit(tlc.run, 'EventConnDispatch', 'd.cfg', 2, 900, {'d.cfg': dcfg(first=True, **drep)}) if not quick else None
     wd = tlc.scratch('vec')
     try:
         # ---- harness run A (needs only the simulation runs): the real pipe under environment scripts from TLC simulation
         #      and the seed, the free-running parts, the probes; then validation of the recorded write-loop traces.
         #      It runs while the state graphs are still being computed.
-        sres, behs = f_sim.result()
+        res, nodes, edges, inits = f_small.result()
+        edges = list(dict.fromkeys(edges))       # (the dot dump repeats an edge when TLC generates a successor twice)
+        if not tlc_ok(ck, res, edges, 'EventConn byte scale'):
+            return ck.finish()
+        # environment scripts for the real pipe: behaviours of the specification - random walks over the dumped graph
+        # (quick) plus TLC -simulate runs of a larger instance (thorough)
+        behs = [(b, small['ends']) for b in walks_from_graph(nodes, edges, inits, rng, 30, 80)]
+        if f_sim:
+            sres, sb = f_sim.result()
+            behs += [(b, simc['ends']) for b in sb]
         jobA = dict(job)
-        jobA['pipe'] = build_pipe(ck, rng, tier, behs, simc['ends'])
+        jobA['pipe'] = build_pipe(ck, rng, tier, behs)
         jobA['e2e'], jobA['burst'] = build_e2e(ck, rng, tier)
         jobA['trace_file'] = os.path.join(wd, 'wtrace.ndjson')
+        # ---- event-mask dimension of handleEvent: behaviours staged on the real epoll dispatcher (run A)
+        resd2, nodesd, edgesd, initsd = f_drep.result()
+        edgesd = list(dict.fromkeys(edgesd))
+        resd = f_dfull.result() if f_dfull else None
+        jobA['dispatch'], jobA['dstates'] = [], []
+        if not dispatch_part(ck, jobA, rng, tier, resd, dfull, resd2, nodesd, edgesd, initsd, drep):
+            return ck.finish()
+        if f_dsens:
+            rs_ = f_dsens.result()
+            ck.cov['dispatch_sensitivity_instance'] = ('switch-shaped handleEvent (FirstMatchOnly): TLC reports %s after %d '
+                                                       'states' % (rs_.violation or 'NO violation', rs_.distinct))
+            if rs_.violation != 'NotStranded':
+                ck.notes.append('the sensitivity instance of EventConnDispatch did not produce the expected NotStranded '
+                                'counterexample: ' + str(rs_.violation or rs_.error))
         ck.cov['pipe_scripts_from_tlc_simulation'] = len(behs)
         hto = 300 if quick else 2400
 
@@ -323,23 +395,26 @@ def run(prop, tier, seed, replay=None):
             return ga, tv
         f_a = ex.submit(run_a)
 
-        res, nodes, edges, inits = f_small.result()
         res2, nodes2, edges2, inits2 = f_small2.result() if f_small2 else (None, None, None, None)
         res3, nodes3, edges3, inits3 = f_unit.result()
-        res4 = f_logic.result()
-        resw = f_wfull.result()
+        edges3 = list(dict.fromkeys(edges3))
+        if edges2:
+            edges2 = list(dict.fromkeys(edges2))
+        res4 = f_logic.result() if f_logic else None
+        resw = f_wfull.result() if f_wfull else None
         resw2, nodesw, edgesw, initsw = f_wrep.result()
+        edgesw = list(dict.fromkeys(edgesw))
         ck.log('TLC runs done')
 
         # ---- 1. design verdict + window replay, byte scale: write loop x kernel x read window, all kernel answers
         if not tlc_ok(ck, res, edges, 'EventConn byte scale'):
             return ck.finish()
         ck.add('states', res.distinct)
-        ck.add('transitions', len(edges))
+        ck.add('transitions', len(set(edges)))
         ck.cov['exhaustive'] = True
         ck.cov['tlc_configs'].append('EventConn N=%(N)d MsgEnds=%(ends)s SockCap=%(cap)d InitLen=%(init)d, any read/write split, '
                                      'any consumption' % small + ': %d distinct states, %d transitions, depth %d, %.1fs'
-                                     % (res.distinct, len(edges), res.depth, res.wall))
+                                     % (res.distinct, len(set(edges)), res.depth, res.wall))
         scheds, states, remaining, _ = window_schedules(nodes, edges, inits, rng, 1, small['init'], small['N'], 'bytes')
         merge_states(job['states'], scheds, states)
         job['window'] += scheds
@@ -352,9 +427,9 @@ def run(prop, tier, seed, replay=None):
             if not tlc_ok(ck, res2, edges2, 'EventConn byte scale (reader centred)'):
                 return ck.finish()
             ck.add('states', res2.distinct)
-            ck.add('transitions', len(edges2))
+            ck.add('transitions', len(set(edges2)))
             ck.cov['tlc_configs'].append('EventConn reader-centred N=6 MsgEnds={1,4,6} SockCap=3 InitLen=1: %d distinct states, '
-                                         '%d transitions, depth %d, %.1fs' % (res2.distinct, len(edges2), res2.depth, res2.wall))
+                                         '%d transitions, depth %d, %.1fs' % (res2.distinct, len(set(edges2)), res2.depth, res2.wall))
             scheds2, states2, remaining2, _ = window_schedules(nodes2, edges2, inits2, rng, 1, 1, 6, 'bytes1')
             merge_states(job['states'], scheds2, states2)
             job['window'] += scheds2
@@ -365,9 +440,10 @@ def run(prop, tier, seed, replay=None):
         if not tlc_ok(ck, res3, edges3, 'EventConn unit scale'):
             return ck.finish()
         ck.add('states', res3.distinct)
-        ck.add('transitions', len(edges3))
-        ck.cov['tlc_configs'].append('EventConn 512KiB-unit instance N=10 InitLen=1 Threshold=2 ShrinkMin=8 MaxRead=2: %d distinct '
-                                     'states, %d transitions, depth %d, %.1fs' % (res3.distinct, len(edges3), res3.depth, res3.wall))
+        ck.add('transitions', len(set(edges3)))
+        ck.cov['tlc_configs'].append('EventConn 512KiB-unit instance N=%d SockCap=%d InitLen=1 Threshold=2 ShrinkMin=8 MaxRead=2: '
+                                     '%d distinct states, %d transitions, depth %d, %.1fs'
+                                     % (unitc['N'], unitc['cap'], res3.distinct, len(set(edges3)), res3.depth, res3.wall))
         blen = {}
 
         def buflen(nid):
@@ -390,20 +466,22 @@ def run(prop, tier, seed, replay=None):
             return sc
 
         nsel = 40 if quick else 400
-        scheds3, states3, remaining3, _ = window_schedules(nodes3, edges3, inits3, rng, UNIT, 1, 10, 'unit', max_paths=nsel,
+        scheds3, states3, remaining3, _ = window_schedules(nodes3, edges3, inits3, rng, UNIT, 1, unitc['N'], 'unit', max_paths=nsel,
                                                            prefer=prefer3)
         merge_states(job['states'], scheds3, states3)
         job['window'] += scheds3
         ck.cov['unit_scale_paths_replayed'] = len(scheds3)
 
         # ---- 3. scaled-down literals (Threshold 3, ShrinkMin 4) with every kernel answer: the threshold / shrink logic itself
-        if res4.violation or not res4.ok:
-            ck.inconc('TLC on EventConn (scaled literals): %s' % (res4.violation or res4.error or 'timeout'))
-            return ck.finish()
-        ck.add('states', res4.distinct)
-        ck.add('transitions', res4.generated)
-        ck.cov['tlc_configs'].append('EventConn scaled literals N=%d Threshold=3 ShrinkMin=4 SockCap=3 SockMin=2 (fuzzy capacity): '
-                                     '%d distinct states, depth %d, %.1fs' % (logic['N'], res4.distinct, res4.depth, res4.wall))
+        if res4 is not None:
+            if res4.violation or not res4.ok:
+                ck.inconc('TLC on EventConn (scaled literals): %s' % (res4.violation or res4.error or 'timeout'))
+                return ck.finish()
+            ck.add('states', res4.distinct)
+            ck.add('transitions', res4.generated)
+            ck.cov['tlc_configs'].append('EventConn scaled literals N=%d Threshold=3 ShrinkMin=4 SockCap=3 SockMin=2 (fuzzy '
+                                         'capacity): %d distinct states, depth %d, %.1fs'
+                                         % (logic['N'], res4.distinct, res4.depth, res4.wall))
 
         # ---- 4. writer protocol
         if not writers_part(ck, job, rng, tier, resw, wfull, resw2, nodesw, edgesw, initsw, wrep):
@@ -412,6 +490,7 @@ def run(prop, tier, seed, replay=None):
         # ---- harness run B: window replay + writer protocol replay
         jobB = dict(job)
         jobB['probes'] = []
+        jobB['dispatch'], jobB['dstates'] = [], []
         ck.log('harness: %d window behaviours, %d writer schedules | %d pipe scripts, %d e2e, %d bursts (already running)'
                % (len(job['window']), len(job['writers']), len(jobA['pipe']), len(jobA['e2e']), len(jobA['burst'])))
         wdb = os.path.join(wd, 'b')
@@ -419,6 +498,7 @@ def run(prop, tier, seed, replay=None):
         gb = gorun.run_harness(TEST, HARNESS, INSTR, inputs={'job': jobB}, timeout=hto, workdir=wdb)
         ga, tv = f_a.result()
         job['pipe'], job['e2e'], job['burst'] = jobA['pipe'], jobA['e2e'], jobA['burst']
+        job['dispatch'], job['dstates'] = jobA['dispatch'], jobA['dstates']
         merged = {}
         bad = False
         for g, jb in ((gb, jobB), (ga, jobA)):
@@ -444,11 +524,15 @@ def run(prop, tier, seed, replay=None):
                   'win_shrinks', 'win_threshold_callbacks', 'pipe_run', 'pipe_syscalls', 'pipe_partial_writes',
                   'pipe_eagain', 'pipe_blocked_waits', 'pipe_bytes', 'e2e_run',
                   'e2e_events', 'e2e_bytes', 'e2e_callbacks', 'e2e_partial_consumptions', 'burst_run',
-                  'burst_shrinks', 'burst_threshold_callbacks', 'wr_replayed', 'wr_conforming', 'wr_steps'):
+                  'burst_shrinks', 'burst_threshold_callbacks', 'wr_replayed', 'wr_conforming', 'wr_steps',
+                  'disp_replayed', 'disp_conforming', 'disp_steps', 'disp_epoll_rounds',
+                  'disp_in_out_events_while_writer_parked', 'disp_rdhup_in_events', 'disp_bytes_not_offered_at_close',
+                  'disp_writer_wakeups'):
             ck.cov[k] = merged.get(k, 0)
         ck.cov['pipe_distinct_kernel_patterns'] = ga.result.get('pipe_distinct_kernel_patterns', 0)
         ck.cov['burst_max_buffer'] = ga.result.get('burst_max_buffer', 0)
-        ck.add('traces_validated_against_impl', merged.get('win_conforming', 0) + merged.get('wr_conforming', 0))
+        ck.add('traces_validated_against_impl', merged.get('win_conforming', 0) + merged.get('wr_conforming', 0)
+               + merged.get('disp_conforming', 0))
         ck.cov['instrumentation'] = gb.report
         ck.cov['harness_times_ms'] = {'A': ga.result.get('times_ms'), 'B': gb.result.get('times_ms')}
         ck.cov['harness_wall_s'] = {'A': round(ga.wall, 1), 'B': round(gb.wall, 1)}
@@ -491,8 +575,9 @@ def crash_verdict(ck, g, job):
     if not prog:
         return False
     part, idx, name = prog[-1][0], int(prog[-1][1]), prog[-1][2]
-    key = {'window': 'window', 'pipe': 'pipe', 'writers': 'writers', 'e2e': 'e2e', 'burst': 'burst'}[part]
-    if part in ('window', 'writers'):
+    key = {'window': 'window', 'pipe': 'pipe', 'writers': 'writers', 'e2e': 'e2e', 'burst': 'burst',
+           'dispatch': 'dispatch'}[part]
+    if part in ('window', 'writers', 'dispatch'):
         return False     # those run in harness goroutines that recover; a crash there is not attributable
     item = job[key][idx]
     rep = {'part': part, 'cfg': item} if part in ('e2e', 'burst') else {'part': 'pipe', 'scen': item}
@@ -541,19 +626,28 @@ CHECK_DEADLOCK TRUE
 
 
 def writers_part(ck, job, rng, tier, res, full, r2, nodes, edges, inits, rep):
-    if res.violation or not res.ok:
-        ck.inconc('TLC on EventConnWriters: %s' % (res.violation or res.error or 'timeout'))
-        return False
-    ck.add('states', res.distinct)
-    ck.add('transitions', res.generated)
-    ck.cov['tlc_configs'].append('EventConnWriters 2 fast-path senders (%d/%d calls) + %d queued events + send loop, every '
-                                 'interleaving: %d distinct states, depth %d, %.1fs'
-                                 % (full['c1'], full['c2'], full['sub'], res.distinct, res.depth, res.wall))
+    if res is not None:
+        if res.violation or not res.ok:
+            ck.inconc('TLC on EventConnWriters: %s' % (res.violation or res.error or 'timeout'))
+            return False
+        ck.add('states', res.distinct)
+        ck.add('transitions', res.generated)
+        ck.cov['tlc_configs'].append('EventConnWriters 2 fast-path senders (%d/%d calls) + %d queued events + send loop, every '
+                                     'interleaving: %d distinct states, depth %d, %.1fs'
+                                     % (full['c1'], full['c2'], full['sub'], res.distinct, res.depth, res.wall))
     if r2.violation or not r2.ok or not edges:
-        ck.inconc('TLC on EventConnWriters (replay instance): %s' % (r2.violation or r2.error or 'timeout'))
+        ck.inconc('TLC on EventConnWriters (graph instance): %s' % (r2.violation or r2.error or 'timeout'))
         return False
     ck.add('states', r2.distinct)
-    ck.add('transitions', len(edges))
+    ck.add('transitions', len(set(edges)))
+    ck.cov['tlc_configs'].append('EventConnWriters %d/%d calls + %d queued events + send loop, every interleaving (graph '
+                                 'dumped): %d distinct states, %d transitions, depth %d, %.1fs'
+                                 % (rep['c1'], rep['c2'], rep['sub'], r2.distinct, len(set(edges)), r2.depth, r2.wall))
+    full_edges = len(set(edges))
+    edges = eager_subgraph(nodes, edges,
+                           lambda t: ('lpc = "recv"' in t and 'sendCh = <<>>' not in t) or
+                                     ('lpc = "tokwait"' in t and re.search(r'/\\ tok = 1\b', t) is not None),
+                           ('LoopRecv', 'LoopTok'))
     paths, remaining = tlc.cover_paths(inits, edges, rng=rng)
     maxp = 150 if tier == 'quick' else 1500
     if len(paths) > maxp:
@@ -579,9 +673,73 @@ def writers_part(ck, job, rng, tier, res, full, r2, nodes, edges, inits, rep):
             th, kind = WACT[m.group(1)]
             steps.append([th or int(m.group(2) or 0), kind, node(d)])
         job['writers'].append({'name': 'wr-%d' % pi, 'calls': [rep['c1'], rep['c2'], rep['sub']], 'init': init, 'steps': steps})
-    ck.cov['tlc_configs'].append('EventConnWriters replay instance (%d/%d calls, %d queued, eager receive): %d distinct '
-                                 'states, %d transitions, %d cover paths' % (rep['c1'], rep['c2'], rep['sub'], r2.distinct,
-                                                                              len(edges), len(job['writers'])))
+    ck.cov['tlc_configs'].append('EventConnWriters replay = sub-graph with eager channel receives: %d of %d transitions, '
+                                 '%d cover paths replayed' % (len(set(edges)), full_edges, len(job['writers'])))
+    return True
+
+
+DCFG = """SPECIFICATION Spec
+CONSTANTS
+  Fills = %(fills)d
+  MaxIn = %(maxin)d
+  MayClose = %(close)s
+  FirstMatchOnly = %(first)s
+  Eager = %(eager)s
+INVARIANTS NotStranded InboundOK OutboundOK TokenOK
+CHECK_DEADLOCK TRUE
+"""
+DOPS = {'WBegin': 1, 'WWake': 2, 'PeerDrainAll': 3, 'PeerSend': 4, 'PeerClose': 5, 'Harvest': 6}
+
+
+def dcfg(fills, maxin, close=True, first=False, eager=False):
+    b = lambda x: 'TRUE' if x else 'FALSE'
+    return DCFG % dict(fills=fills, maxin=maxin, close=b(close), first=b(first), eager=b(eager))
+
+
+def dispatch_part(ck, job, rng, tier, rfull, full, r2, nodes, edges, inits, rep):
+    """EventConnDispatch: verdict instance (every interleaving) + replay instance (graph -> cover paths for the harness)"""
+    if rfull is not None:
+        if rfull.violation or not rfull.ok:
+            ck.inconc('TLC on EventConnDispatch: %s' % (rfull.violation or rfull.error or 'timeout'))
+            return False
+        ck.add('states', rfull.distinct)
+        ck.add('transitions', rfull.generated)
+        ck.cov['tlc_configs'].append('EventConnDispatch Fills=%d MaxIn=%d peer may close, every interleaving of writer / peer '
+                                     '/ epoll rounds (all coalesced masks): %d distinct states, depth %d, %.1fs'
+                                     % (full['fills'], full['maxin'], rfull.distinct, rfull.depth, rfull.wall))
+    if r2.violation or not r2.ok or not edges:
+        ck.inconc('TLC on EventConnDispatch (graph instance): %s' % (r2.violation or r2.error or 'timeout'))
+        return False
+    ck.add('states', r2.distinct)
+    ck.add('transitions', len(set(edges)))
+    ck.cov['tlc_configs'].append('EventConnDispatch Fills=%d MaxIn=%d peer may close, every interleaving of writer / peer / '
+                                 'epoll rounds, all coalesced masks (graph dumped): %d distinct states, %d transitions, depth '
+                                 '%d, %.1fs' % (rep['fills'], rep['maxin'], r2.distinct, len(set(edges)), r2.depth, r2.wall))
+    full_edges = len(set(edges))
+    edges = eager_subgraph(nodes, edges,
+                           lambda t: 'wpc = "wait"' in t and re.search(r'/\\ tok = 1\b', t) is not None, ('WWake',))
+    paths, remaining = tlc.cover_paths(inits, edges, rng=rng)
+    index, states = {}, job['dstates']
+    wcode = {'idle': 0, 'wait': 1, 'done': 2, 'failed': 2}
+    bits = {'IN': 1, 'OUT': 2, 'RDHUP': 4}
+
+    def node(nid):
+        if nid not in index:
+            st = tlaval.parse_state(nodes[nid])
+            index[nid] = len(states)
+            states.append([wcode[st['wpc']], st['tok'], st['delivered'], 1 if st['closedSeen'] else 0, st['drained'],
+                           1 if (st['wpc'] == 'wait' and st['tok'] == 1) else 0, sum(bits[x] for x in st['lastMask'])])
+        return index[nid]
+
+    init = node(inits[0])
+    for pi, path in enumerate(paths):
+        steps = []
+        for e in path:
+            s_, d_, label = edges[e]
+            steps.append([DOPS.get(re.match(r'\w+', label).group(0), 0), node(d_)])
+        job['dispatch'].append({'name': 'disp-%d' % pi, 'fills': rep['fills'], 'init': init, 'steps': steps})
+    ck.cov['tlc_configs'].append('EventConnDispatch replay = sub-graph in which the woken writer runs first: %d of %d '
+                                 'transitions, %d cover paths, %d edges uncovered' % (len(set(edges)), full_edges, len(paths), remaining))
     return True
 
 
@@ -642,7 +800,7 @@ def do_replay(ck, path):
     rep = json.loads(json.dumps(rep_file))     # worked on below; the file content is what gets re-written on a violation
     part = rep.get('part')
     job = {'instr': True, 'states': [], 'window': [], 'pipe': [], 'e2e': [], 'burst': [], 'writers': [], 'wstates': [],
-           'probes': []}
+           'dispatch': [], 'dstates': [], 'probes': []}
     if part == 'window':
         sched = rep['sched']
         # rebuild a dense state table from the sparse one stored in the replay file
@@ -664,6 +822,9 @@ def do_replay(ck, path):
     elif part == 'writers':
         job['writers'] = [rep['sched']]
         job['wstates'] = rep['wstates']
+    elif part == 'dispatch':
+        job['dispatch'] = [rep['sched']]
+        job['dstates'] = rep['dstates']
     elif part == 'probe':
         job['probes'] = [rep['probe']]
     g = gorun.run_harness(TEST, HARNESS, INSTR, inputs={'job': job}, timeout=900)
